@@ -72,8 +72,15 @@ def _bulkheads():
     return _shared_bulkheads
 
 
-class Quiescence(Exception):
-    pass
+def virtualize_backoff() -> None:
+    """Retry back-offs (resilient_circuit's `sleep`) are real-time waits that change no
+    decision; under the harness they are virtual (the scheduler holds the baton anyway)."""
+    try:
+        import resilient_circuit.retry as _r
+
+        _r.sleep = lambda seconds: None  # type: ignore[assignment]
+    except Exception:
+        pass
 
 
 class World:
@@ -91,6 +98,7 @@ class World:
         max_attempts: int = 10,
     ) -> None:
         hooks.install()
+        virtualize_backoff()
         self.events = events
         self.sdata = sdata
         self.dedup_items = dedup_items
